@@ -40,6 +40,13 @@ inductive Fail where
 
 abbrev M := Except Fail
 
+instance exceptDecEq {ε α} [DecidableEq ε] [DecidableEq α] : DecidableEq (Except ε α)
+  | .ok a, .ok b => if h : a = b then isTrue (by rw [h]) else isFalse (fun e => h (Except.ok.inj e))
+  | .error a, .error b =>
+    if h : a = b then isTrue (by rw [h]) else isFalse (fun e => h (Except.error.inj e))
+  | .ok _, .error _ => isFalse (fun e => by cases e)
+  | .error _, .ok _ => isFalse (fun e => by cases e)
+
 /-- `RefGraph` plus the declaration kind of every name. -/
 structure Graph where
   /-- `references.references`: keys ascending, targets ascending -/
